@@ -97,4 +97,32 @@ def teardownOrder : Bool :=
                            ("return", "void", ""), ("call", "setTeardownFence", ""), ("call", "engine.stop", ""),
                            ("call", "teardownWaitOut(false)", "")]
 
+/-! ### C05 T4: the engine command queue (tcp_engine.hpp) -/
+/-- both `enqueue` overloads test `_cmdsClosed` under `_cmdMutex`, return false before pushing, and push under the same lock -/
+def enqueueChecksClosedUnderLock : Bool :=
+  ["tcp.enqueue#0", "tcp.enqueue#1"].all fun f =>
+    (fn f).take 6 == [("lock", "_cmdMutex", ""), ("read", "_cmdsClosed", "_cmdMutex"), ("return", "false", "_cmdMutex"),
+                      ("push", "_cmds", "_cmdMutex"), ("wake", "_eventFd", "_cmdMutex"), ("unlock", "_cmdMutex", "_cmdMutex")]
+/-- `shutdownDrain` runs `process()` once more, then closes the queue and takes the residual commands under ONE acquisition of
+`_cmdMutex`, and fails the residual promises afterwards -/
+def drainClosesQueueUnderLock : Bool :=
+  before (fn "tcp.shutdownDrain") ("call", "process", "") ("lock", "_cmdMutex", "") &&
+  followedBy (fn "tcp.shutdownDrain") ("lock", "_cmdMutex", "") ("write", "_cmdsClosed=true", "_cmdMutex") &&
+  followedBy (fn "tcp.shutdownDrain") ("write", "_cmdsClosed=true", "_cmdMutex") ("swap", "residual", "_cmdMutex") &&
+  before (fn "tcp.shutdownDrain") ("unlock", "_cmdMutex", "_cmdMutex") ("set_value", "false", "") &&
+  count (fn "tcp.shutdownDrain") (fun e => e.1 == "write") == 1
+/-- `process()` swaps the queue out under the lock and fulfils an AddListener promise in the normal arm and in the exception arm -/
+def processFulfilsPromises : Bool :=
+  (fn "tcp.process").take 3 == [("lock", "_cmdMutex", ""), ("swap", "q", "_cmdMutex"), ("unlock", "_cmdMutex", "_cmdMutex")] &&
+  before (fn "tcp.process") ("case", "AddListener", "") ("call", "doAddListener", "") &&
+  followedBy (fn "tcp.process") ("call", "doAddListener", "") ("set_value", "ok", "") &&
+  before (fn "tcp.process") ("catch", "", "") ("set_value", "false", "")
+/-- `addListener` returns ShuttingDown without waiting when `enqueue` refuses the command, and only then waits on the future -/
+def addListenerRejectsBeforeWaiting : Bool :=
+  followedBy (fn "tcp.addListener") ("enqueue", "addListener+promise", "") ("return", "err:ShuttingDown", "") &&
+  before (fn "tcp.addListener") ("return", "err:ShuttingDown", "") ("wait", "future", "")
+/-- `stop()` is a CAS on `_running`, then Shutdown is enqueued and the I/O thread is joined -/
+def stopJoins : Bool :=
+  fn "tcp.stop" == [("running", "compare_exchange_strong:exp,false", ""), ("enqueue", "shutdown", ""), ("join", "_loop", "")]
+
 end Iora.TsyncFacts
